@@ -92,6 +92,9 @@ pub struct E1Unit {
     pub probes: Probes,
     pub alarm: u32,
     pub skip_not_content: bool,
+    pub lazy: bool,
+    /// differential unit: `grammars` holds pairs (2k, 2k+1)
+    pub pair_mode: Option<e1::PairMode>,
 }
 
 #[derive(Default, Clone, Debug)]
@@ -198,6 +201,8 @@ pub fn run_e1_unit_on(u: &E1Unit, cx: &ShardCtx, inputs: Option<Vec<Vec<Tok>>>) 
         first: cx.shard,
         stride: cx.nshards,
         skip: &skip,
+        lazy: u.lazy,
+        pair_mode: u.pair_mode,
     };
     let handled = RUNNERS.get().map(|rs| rs.iter().any(|r| r(u.kind, u.cfg, &job, &mut acc))).unwrap_or(false);
     if !handled {
@@ -219,12 +224,16 @@ pub fn run_e1_unit_on(u: &E1Unit, cx: &ShardCtx, inputs: Option<Vec<Vec<Tok>>>) 
     for (k, v) in &acc.mismatch_by_cat {
         counters.insert(format!("mismatch_{k}"), *v);
     }
+    for (k, v) in &acc.explained_counts {
+        counters.insert(format!("mismatches_explained_by:{k}"), *v);
+    }
     UnitResult {
         name: u.name.clone(),
         desc: format!(
-            "E1 {}: {} grammars x {} inputs (alphabet {:?}, length <= {}) on {} with {}",
+            "E1{} {}: {} grammars x {} inputs (alphabet {:?}, length <= {}) on {} with {}",
+            match u.pair_mode { Some(m) => format!(" differential pairs ({})", e1::pair_mode_name(Some(m))), None => String::new() },
             u.class_desc,
-            u.grammars.len(),
+            if u.pair_mode.is_some() { u.grammars.len() / 2 } else { u.grammars.len() },
             inputs.len(),
             u.alphabet.iter().collect::<String>(),
             u.max_len,
@@ -243,7 +252,7 @@ pub fn run_e1_unit_on(u: &E1Unit, cx: &ShardCtx, inputs: Option<Vec<Vec<Tok>>>) 
                 json!({
                     "engine": "e1", "unit": u.name, "categories": e1::cat_names(m.mask), "grammar": m.grammar, "input": m.input,
                     "kind": m.kind, "cfg": m.cfg, "probes": [u.probes.span, u.probes.state, u.probes.ctx],
-                    "alarm": u.alarm, "skip_not_content": u.skip_not_content,
+                    "alarm": u.alarm, "skip_not_content": u.skip_not_content, "lazy": u.lazy, "pair_mode": e1::pair_mode_name(u.pair_mode),
                     "detail": m.detail, "explained_by": m.explained_by,
                 })
             })
